@@ -5,3 +5,5 @@ cd "$(dirname "$0")"
 test -x /venv/bin/python
 /venv/bin/python -c "import sys; sys.path.insert(0, '.'); from vsim import boot; boot.bootstrap(); print('vsim ok', boot.runner_file())"
 mkdir -p evidence replays
+# the simulated Lock/Event/Condition/Queue must work under the scheduler (20 seeded schedules)
+/venv/bin/python -B tools/selftest_simsync.py 20
